@@ -154,9 +154,9 @@ Print Assumptions C09_run_is_generated.
    logs 8) is told at t = 2 to shut down and restart in 5 ns; a message for it arrives at t = 4
    (while it is down) and another at t = 9 (after the restart). *)
 Definition ex_m0 : modcfg := {| c_catch := false; c_stages := 2; c_bud := 5; c_start := [[]];
-  c_msg := [[ARestartIn 5]; [ALog 1]]; c_tasks := [[ASleep 3; ALog 7; ASleep 10; ALog 8]]; c_end := [] |}.
+  c_msg := [[ARestartIn 5]; [ALog 1]]; c_tasks := [[ASleep 3; ALog 7; ASleep 10; ALog 8]]; c_end := []; c_join := 0 |}.
 Definition ex_m1 : modcfg := {| c_catch := false; c_stages := 1; c_bud := 5; c_start := [[]];
-  c_msg := [[ALog 2]]; c_tasks := []; c_end := [] |}.
+  c_msg := [[ALog 2]]; c_tasks := []; c_end := []; c_join := 0 |}.
 Definition ex : script :=
   {| s_mods := [ex_m0; ex_m1];
      s_inj := [(2, InjDeliver 0 0); (4, InjDeliver 0 1); (9, InjDeliver 0 1); (4, InjDeliver 1 0)] |}.
@@ -165,7 +165,7 @@ Example C09_nonvacuous :
   let tr := trace ex in
   (* the shutdown event: one reset, the old task is cancelled *)
   e_items (nth 4 tr (boot_rec ex (init_world ex))) =
-    [ICall 0 (CbMsg 0) 2 true; IShut 0 0 (Some 5); ICancel 0 0; IReset 0 2 1; ISample 2 2] /\
+    [ICall 0 (CbMsg 0) 2 true; IShut 0 0 (Some 5); ICancel 0 0; ITaskEnd 0 0 0 2; IReset 0 2 1; ISample 2 2] /\
   down_after 0 (firstn 5 tr) = true /\ pending 0 (firstn 5 tr) = Some 7 /\
   (* the old task's wake-up at 3 and the message at 4 find the module down: nothing runs *)
   map (fun e => (e_kind e, e_items e)) (firstn 2 (skipn 5 tr)) =
@@ -173,12 +173,12 @@ Example C09_nonvacuous :
   (* the restart at 7 = 2 + 5: both stages once, a task of incarnation 1 *)
   (let e := nth 8 tr (boot_rec ex (init_world ex)) in
    e_kind e = KLoop (EvRestart 0) /\ e_time e = 7 /\
-   e_items e = [ICall 0 (CbStart 0) 7 true; ICall 0 (CbTask 0 1) 7 true; ICall 0 (CbStart 1) 7 true; ISample 7 3]) /\
+   e_items e = [ICall 0 (CbStart 0) 7 true; ISpawn 0 0 1 false; ICall 0 (CbTask 0 1) 7 true; ICall 0 (CbStart 1) 7 true; ISample 7 3]) /\
   down_after 0 (firstn 9 tr) = false /\
   (* afterwards the module works again, and only the new incarnation's timers fire *)
   map e_items (firstn 3 (skipn 9 tr)) =
     [[ICall 0 (CbMsg 1) 9 true; ILog 0 0 1; ISample 9 3];
      [ICall 0 (CbTimer 0 1) 10 true; ILog 0 1 7; ISample 10 3];
-     [ICall 0 (CbTimer 0 1) 20 true; ILog 0 1 8; ISample 20 3]] /\
+     [ICall 0 (CbTimer 0 1) 20 true; ILog 0 1 8; ITaskEnd 0 0 1 0; ISample 20 3]] /\
   r_ok (run_script ex) = true.
 Proof. vm_compute. repeat split; reflexivity. Qed.
